@@ -33,6 +33,7 @@ fn dispatch(args: &[String]) -> i32 {
         ("ping", _) => serde_json::json!({"pong": true}),
         ("window", "sched") => window::run_sched(a(3), a(4)),
         ("window", "random") => window::run_random(n(3), n(4), a(5)),
+        ("window", "session") => window::run_session(n(3), n(4), a(5)),
         ("rot", "sched") => rot::run_sched(a(3), a(4), a(5) == "each"),
         ("rot", "random") => rot::run_random(n(3), n(4) as i64, a(5)),
         ("nonce", "families") => nonce::families(a(3)),
